@@ -11,6 +11,8 @@ CONSTANTS
   MaxMsgs = 2
   MaxMarkers = 0
 INVARIANT TypeOK
+INVARIANT PosIsState
+INVARIANT AnnouncedPosition
 INVARIANT StampsTitleSection
 INVARIANT StampsSubsection
 INVARIANT StampsCurrentTitle
